@@ -138,9 +138,28 @@ Ltac fwd1 I :=
       derive (ret (subs st s) = false /\ j = 0) ltac:(exact (i_sub _ I _ _ H))
   | H : kp ?st ?s ?j = _ |- _ =>
       derive (ret (subs st s) = false /\ j = 0) ltac:(apply (i_sub _ I); rewrite H; reflexivity)
+  | H : ret (subs ?st ?s) = false |- _ =>
+      derive (closed (subs st s) = false /\ done (subs st s) = false /\ cleared (subs st s) = false /\
+              smu (subs st s) = None /\ (in_map (subs st s) = true -> kp st s 0 = KSubUnlock) /\
+              forall j, kp st s j = KIdle \/ sub_pc (kp st s j) = true) ltac:(exact (i_fresh _ I _ H))
+  | H : tmu ?st = Some (TSub ?s ?j) |- _ =>
+      derive (holdk (kp st s j) = true) ltac:(exact (i_tmu2 _ I (TSub s j) H))
+  | H : tmu ?st = Some (TPub ?p) |- _ =>
+      derive (holdp (pp st p) = true) ltac:(exact (i_tmu2 _ I (TPub p) H))
+  | H : smu (subs ?st ?s) = Some ?j |- _ =>
+      derive (in_close (kp st s j) = true) ltac:(exact (i_smu2 _ I _ _ H))
   | H : _ /\ _ |- _ => destruct H
   end.
+Ltac rw_pcs0 :=
+  repeat match goal with
+         | H : kp ?st ?s ?j = _, H2 : context [kp ?st ?s ?j] |- _ => rewrite H in H2
+         | H : pp ?st ?p = _, H2 : context [pp ?st ?p] |- _ => rewrite H in H2
+         | H : kp ?st ?s ?j = _ |- context [kp ?st ?s ?j] => rewrite H
+         | H : pp ?st ?p = _ |- context [pp ?st ?p] => rewrite H
+         end.
+Ltac rw_pcs := rw_pcs0.
 Ltac fwd I := repeat fwd1 I.
+Ltac fin I := fwd I; rw_pcs; simp0; try discriminate; try congruence.
 
 Lemma step_tmu1 : forall st t l st' br, inv st -> step VFixed st t l = Some (st', br) ->
   forall q, hold_t st' q = true -> tmu st' = Some q.
@@ -159,8 +178,55 @@ Proof.
   pose proof (i_tmu2 _ I) as T2.
   destruct t as [p | s j]; step_inv H; destruct q as [p0 | s0 j0]; simp; eqb_tac; simp; intros Hq;
     try discriminate; try reflexivity; try congruence.
-  all: fwd I; try congruence.
-  all: try (apply (T2 (TPub p0)); exact Hq).
-  all: try (apply (T2 (TSub s0 j0)); exact Hq).
+  all: fin I.
+Qed.
+
+Lemma step_smu1 : forall st t l st' br, inv st -> step VFixed st t l = Some (st', br) ->
+  forall s0 j0, in_close (kp st' s0 j0) = true -> smu (subs st' s0) = Some j0.
+Proof.
+  intros st t l st' br I H s0 j0.
+  destruct t as [p | s j]; step_inv H; simp; eqb_tac; simp; intros Hq;
+    try discriminate; try reflexivity; try congruence.
+  all: fin I.
+Qed.
+
+Lemma step_smu2 : forall st t l st' br, inv st -> step VFixed st t l = Some (st', br) ->
+  forall s0 j0, smu (subs st' s0) = Some j0 -> in_close (kp st' s0 j0) = true.
+Proof.
+  intros st t l st' br I H s0 j0.
+  destruct t as [p | s j]; step_inv H; simp; eqb_tac; simp; intros Hq;
+    try discriminate; try reflexivity; try congruence.
+  all: fin I.
+Qed.
+
+Lemma step_map : forall st t l st' br, inv st -> step VFixed st t l = Some (st', br) ->
+  forall s0, in_map (subs st' s0) = true -> closed (subs st' s0) = false.
+Proof.
+  intros st t l st' br I H s0.
+  destruct t as [p | s j]; step_inv H; simp; eqb_tac; simp; intros Hq;
+    try discriminate; try reflexivity; try congruence.
+  all: fin I.
+Qed.
+
+Lemma step_clr : forall st t l st' br, inv st -> step VFixed st t l = Some (st', br) ->
+  forall s0, cleared (subs st' s0) = true -> done (subs st' s0) = true /\ in_map (subs st' s0) = false.
+Proof.
+  intros st t l st' br I H s0.
+  destruct t as [p | s j]; step_inv H; simp; eqb_tac; simp; intros Hq;
+    try discriminate; try (split; reflexivity); try congruence.
+  all: fin I; auto.
+Qed.
+
+Lemma step_pc : forall st t l st' br, inv st -> step VFixed st t l = Some (st', br) ->
+  forall s0 j0 x, kp st' s0 j0 = KClose x -> xinv (subs st' s0) x.
+Proof.
+  intros st t l st' br I H s0 j0 x.
+  destruct t as [p | s j]; step_inv H; simp; eqb_tac; simp; intros Hq;
+    try discriminate; try congruence.
+  all: try (inversion Hq; subst; clear Hq); fin I; auto.
+  all: try (destruct x; fin I; auto).
   Show.
+
+
+
 
